@@ -396,8 +396,9 @@ def r6_user_bus_is_per_resolver(ctx: Ctx) -> None:
     for d in list(a.defaults) + [k for k in a.kw_defaults if k is not None]:
         ctx.check(not isinstance(d, ast.Call), f"Resolver.__init__:default {unparse(d)[:30]}", "a default argument built by a call is created once and shared by every Resolver")
     gb = ctx.repo.func(SYMBOLS, "Resolver.get_bus")
-    tests = [unparse(s.test) for s in walk_no_nested(gb.node) if isinstance(s, ast.If)]
-    ctx.check(tests == ["self.bus.has_mappings()"], "Resolver.get_bus:prefers-user-bus", f"the user bus is used exactly when it has mappings; tests {tests}")
+    gf = return_facts(gb)
+    want = {("self.bus", frozenset({("self.bus.has_mappings()", True)})), ("BUS_MAPPING[self.rom_type]", frozenset({("self.bus.has_mappings()", False)}))}
+    ctx.check(gf == want, "Resolver.get_bus:prefers-user-bus", f"the user bus is used exactly when it has mappings; found: {show_facts(gf)}")
     hm = ctx.repo.func(MAPPING, "Bus.has_mappings")
     r = returns_of(hm.node)
     ctx.check(len(r) == 1 and unparse(r[0].value) in ("self.mappings != {}", "bool(self.mappings)", "len(self.mappings) > 0"), "Bus.has_mappings", "true iff some mapping was defined")
